@@ -2149,6 +2149,9 @@ class BSP:
                 prim_count = len(face.primitives)
                 if prim_count > 0x7fff:
                     raise ValueError(f'Too many primitives: {prim_count} in {orig_ind}')
+                if len(face.light_styles) > 4:
+                    # struct.pack() would silently drop the extra bytes.
+                    raise ValueError(f'A face has only 4 light style slots, not {len(face.light_styles)}!')
                 if not face.dynamic_shadows:
                     prim_count |= 0x8000
 
